@@ -24,6 +24,7 @@ type Env struct {
 	pats         *patCollector
 	idxBy        map[int]*Val
 	definingPure bool
+	lenient      bool // exit assertions: a local that is dead on some path reads as an arbitrary value
 }
 
 func (e *Env) with(st *State) *Env {
@@ -344,10 +345,18 @@ func (e *Env) local(name string) *Val {
 			}
 			c := e.fr.cellOf[a]
 			if c == nil {
+				if e.lenient {
+					return e.vc.havocVal(deref(a.Type()), "dead_"+base)
+				}
 				return e.fail("local %q is not live here", name)
 			}
 			v, ok := e.st.cells[c]
 			if !ok {
+				if e.lenient {
+					// dead on some path into this point: an arbitrary value (the
+					// assertion has to hold whatever it is)
+					return e.vc.havocVal(c.T, "dead_"+base)
+				}
 				return e.fail("local %q is not live here", name)
 			}
 			return v
